@@ -213,6 +213,15 @@ def download(
         except FileNotFoundError as err:
             _not_found(err.filename)
             return_code = 1
+        # The directory cannot be created or written to, the disk is full, ...:
+        # that is the end of this download, not of the others.
+        except OSError as err:
+            click.echo(
+                _("Error: Could not write {path}: {error}").format(
+                    path=destination, error=err.strerror or err
+                )
+            )
+            return_code = 1
         else:
             _successfully_downloaded(destination)
     sys.exit(return_code)
